@@ -25,7 +25,13 @@ package identity
 //@ at call os.WriteFile#1 assert $0 == pubTempPath && w0 == nil && r0 == nil
 //@ at call os.Rename#0 assert w0 == nil && $0 == privTempPath && $1 == privPath && hassuffix($0, ".tmp") && len($0) == len($1) + 4 && hasprefix($0, $1)
 //@ at call os.Rename#1 assert w1 == nil && r0 == nil && $0 == pubTempPath && $1 == pubPath && len($0) == len($1) + 4 && hasprefix($0, $1)
+//@ at call os.Remove#0 assert $0 == privTempPath
+//@ at call os.Remove#1 assert $0 == privPath && w0 == nil && r0 == nil && w1 != nil
+//@ at call os.Remove#2 assert $0 == pubTempPath
+//@ at call os.Remove#3 assert $0 == privPath && w0 == nil && r0 == nil && w1 == nil
+//@ note the only live file ever removed is the private key that this very call has just put in place, when the public key cannot be written (the creation is rolled back); Store is reached only when no private key existed (LoadOrCreateKeypair)
 //@ census[C34] os.WriteFile in (*Keypair).Store, AgentID.Store
+//@ census[C34] os.Remove in (*Keypair).Store, AgentID.Store
 //@ census[C34] os.Rename in (*Keypair).Store, AgentID.Store
 
 //@ func AgentID.Store
@@ -33,6 +39,7 @@ package identity
 //@ after call os.WriteFile let w0 = $ret
 //@ at call os.WriteFile assert hassuffix($0, ".tmp") && $0 == tempPath
 //@ at call os.Rename assert w0 == nil && $0 == tempPath && $1 == filePath && len($0) == len($1) + 4 && hasprefix($0, $1)
+//@ at call os.Remove assert $0 == tempPath
 
 //@ func LoadKeypair
 //@ prop C34
